@@ -123,14 +123,14 @@ func (c *Int) Ident() string {
 	if c.Typ.BitSize == 1 {
 		// "true"
 		// "false"
-		switch x := c.X.Int64(); x {
-		case 0:
-			return "false"
-		case 1:
+		//
+		// The value of an i1 is its least significant bit (in two's complement);
+		// e.g. `i1 -1` is true and `i1 2` is false, as LLVM truncates integer
+		// literals to the bit width of their type.
+		if c.X.Bit(0) == 1 {
 			return "true"
-		default:
-			panic(fmt.Errorf("invalid integer value of boolean type; expected 0 or 1, got %d", x))
 		}
+		return "false"
 	}
 	// Output x in hexadecimal notation if x is positive, greater than or equal
 	// to 0x1000 and has a significantly lower entropy than decimal notation.
